@@ -1,5 +1,5 @@
 import Proofs.C07
-import Proofs.Gen
+import Proofs.GenTables
 #print axioms Xsel.C07.substring_spec
 #print axioms Xsel.C07.substring_spec_keep
 #print axioms Xsel.C07.substring_total
